@@ -1114,4 +1114,308 @@ Qed.
 
 End K3.
 
+(* ------------------------------------------------------------------ *)
+(** * 6. The state invariant *)
+
+Ltac ssimpl :=
+  cbn [s_ok s_lock s_lockq s_cache s_sent s_cached s_todo s_pp s_count s_cs s_att s_stp s_kp
+       set_cs set_core set_att set_stp].
+
+(* the broadcast and the closer's sweep act on each consumer separately *)
+Lemma send_all_at n f p : forall c,
+  send_all maxq n f p c = if (c <? n) && c_reg (f c) then send maxq (f c) p else f c.
+Proof.
+  induction n as [|n IH]; intros c; [reflexivity|]. simpl.
+  assert (En : send_all maxq n f p n = f n).
+  { rewrite IH. now rewrite Nat.ltb_irrefl. }
+  rewrite En.
+  destruct (Nat.eq_dec c n) as [->|Hne].
+  - assert (E1 : (n <? S n) = true) by (apply Nat.ltb_lt; lia). rewrite E1. simpl.
+    destruct (c_reg (f n)); [now rewrite upd_same|exact En].
+  - assert (E1 : (c <? S n) = (c <? n)).
+    { destruct (Nat.ltb_spec c (S n)), (Nat.ltb_spec c n); try reflexivity; lia. }
+    rewrite E1. destruct (c_reg (f n)); [rewrite upd_other by congruence|]; apply IH.
+Qed.
+
+Lemma sweep_at n f sent : forall c,
+  fst (sweep fixed n f sent) c =
+  if (c <? n) && c_reg (f c) then close_cons fixed (set_reg (f c) false sent) else f c.
+Proof.
+  induction n as [|n IH]; intros c; [reflexivity|]. simpl.
+  destruct (sweep fixed n f sent) as [f' d] eqn:Es. simpl in IH.
+  assert (En : f' n = f n).
+  { rewrite IH. now rewrite Nat.ltb_irrefl. }
+  rewrite En.
+  destruct (Nat.eq_dec c n) as [->|Hne].
+  - assert (E1 : (n <? S n) = true) by (apply Nat.ltb_lt; lia). rewrite E1. simpl.
+    destruct (c_reg (f n)); simpl; [now rewrite upd_same|exact En].
+  - assert (E1 : (c <? S n) = (c <? n)).
+    { destruct (Nat.ltb_spec c (S n)), (Nat.ltb_spec c n); try reflexivity; lia. }
+    rewrite E1. destruct (c_reg (f n)); simpl; [rewrite upd_other by congruence|]; apply IH.
+Qed.
+
+Section Global.
+Variable G : nat.
+Variable pkts : list pkt.
+
+Definition LInv (s : state) : Prop :=
+  LInvC (s_lock s) (s_lockq s) (s_pp s) (s_att s) (s_todo s).
+
+(* the broadcast log is a prefix of the packet list (a closed stream drops the remaining packets) *)
+Definition Prefix (s : state) : Prop :=
+  pkts = s_sent s ++ s_todo s \/
+  (s_ok s = false /\ s_pp s = P0 /\ exists l, pkts = s_sent s ++ l).
+
+Definition CAllC (sent : list pkt) (att : nat -> apc) (cs : nat -> cons) : Prop :=
+  forall c, K3 G pkts sent (att c) (cs c) (panic_at c).
+Definition CAll (s : state) : Prop := CAllC (s_sent s) (s_att s) (s_cs s).
+
+Record Inv (s : state) : Prop := { inv_l : LInv s; inv_p : Prefix s; inv_c : CAll s }.
+
+Lemma callc_upd sent att cs c a k :
+  CAllC sent att cs -> K3 G pkts sent a k (panic_at c) -> CAllC sent (upd att c a) (upd cs c k).
+Proof.
+  intros H Hk c'. destruct (Nat.eq_dec c c') as [<-|Hne].
+  - now rewrite !upd_same.
+  - rewrite !upd_other by assumption. apply H.
+Qed.
+
+Lemma callc_upd_cs sent att cs c k :
+  CAllC sent att cs -> K3 G pkts sent (att c) k (panic_at c) -> CAllC sent att (upd cs c k).
+Proof.
+  intros H Hk c'. destruct (Nat.eq_dec c c') as [<-|Hne].
+  - now rewrite upd_same.
+  - rewrite upd_other by assumption. apply H.
+Qed.
+
+Lemma callc_send_all sent att cs p :
+  CAllC sent att cs -> (forall c, ncons <= c -> att c = A0) ->
+  (gap_ok G pkts = true -> since (sent ++ [p]) < G) ->
+  CAllC (sent ++ [p]) att (send_all maxq ncons cs p).
+Proof.
+  intros H Hrng Hs c. rewrite send_all_at.
+  destruct (Nat.ltb_spec c ncons) as [Hc|Hc]; simpl.
+  - destruct (c_reg (cs c)) eqn:Hr; [now apply k3_send|now apply k3_grow].
+  - apply k3_grow; [|apply H].
+    destruct (H c) as (HC & _). apply (ci_early _ _ _ HC). rewrite (Hrng c Hc). unfold early. tauto.
+Qed.
+
+Lemma callc_sweep sent att cs :
+  CAllC sent att cs -> CAllC sent att (fst (sweep fixed ncons cs (length sent))).
+Proof.
+  intros H c. rewrite sweep_at. destruct ((c <? ncons) && c_reg (cs c)) eqn:E; [|apply H].
+  apply andb_true_iff in E. destruct E as [_ Hr]. apply k3_close. now apply k3_unreg.
+Qed.
+
+(* what Unlock() needs to know about the state it is called in *)
+Definition RelPre (m : state) : Prop :=
+  match s_lockq m with
+  | [] => LInvC None [] (s_pp m) (s_att m) (s_todo m)
+  | HPub :: r => s_pp m = P1W /\ s_todo m <> [] /\ LInvC (Some HPub) r P2 (s_att m) (s_todo m)
+  | HAtt c :: r => (s_att m c = A0 \/ s_att m c = A0W) /\
+                   LInvC (Some (HAtt c)) r (s_pp m) (upd (s_att m) c A1) (s_todo m)
+  end.
+
+Lemma release_inv (m : state) :
+  CAll m -> RelPre m -> Prefix m -> Inv (release fixed cache_t cache_add cache_snap m).
+Proof.
+  intros HC HR HP. unfold RelPre in HR. unfold release. cbn [v_lock fixed].
+  destruct (s_lockq m) as [|[|c] r] eqn:Eq.
+  - constructor; [exact HR|exact HP|exact HC].
+  - destruct HR as (Epp & Ht & HL). unfold after_acquire.
+    destruct (s_todo m) as [|p rest] eqn:Et; [contradiction|].
+    constructor.
+    + unfold LInv. ssimpl. rewrite Et. exact HL.
+    + unfold Prefix in *. ssimpl. destruct HP as [HP|(_ & E & _)]; [now left|congruence].
+    + exact HC.
+  - destruct HR as (Ea & HL). unfold after_acquire. constructor.
+    + exact HL.
+    + exact HP.
+    + unfold CAll. ssimpl. apply callc_upd; [exact HC|].
+      apply (k3_snap G pkts _ (s_att m c) (s_cs m c)); [exact Ea|apply HC].
+Qed.
+
+Lemma acquire_inv_pub (s : state) p rest :
+  Inv s -> s_pp s = P1 -> s_todo s = p :: rest ->
+  Inv (acquire fixed cache_t cache_add cache_snap s HPub).
+Proof.
+  intros [HL HP HC] Epp Et. unfold acquire. cbn [v_lock fixed]. unfold LInv in HL. rewrite Epp in HL.
+  destruct (s_lock s) as [h|] eqn:El.
+  - constructor.
+    + unfold LInv. ssimpl. apply linv_pub_acquire_wait; [exact HL|congruence].
+    + unfold Prefix in *. ssimpl. destruct HP as [HP|(_ & E & _)]; [now left|congruence].
+    + exact HC.
+  - unfold after_acquire. rewrite Et. constructor.
+    + unfold LInv. ssimpl. rewrite Et. apply linv_pub_acquire_free. rewrite <- Et. exact HL.
+    + unfold Prefix in *. ssimpl. destruct HP as [HP|(_ & E & _)]; [now left|congruence].
+    + exact HC.
+Qed.
+
+Lemma acquire_inv_att (s : state) c :
+  Inv s -> s_att s c = A0 -> c < ncons ->
+  Inv (acquire fixed cache_t cache_add cache_snap s (HAtt c)).
+Proof.
+  intros [HL HP HC] Ea Hc. unfold acquire. cbn [v_lock fixed]. unfold LInv in HL.
+  destruct (s_lock s) as [h|] eqn:El.
+  - constructor.
+    + unfold LInv. ssimpl. now apply linv_att_acquire_wait.
+    + exact HP.
+    + unfold CAll. ssimpl. intros c'. destruct (Nat.eq_dec c c') as [<-|Hne].
+      * rewrite upd_same. apply k3_queue. rewrite <- Ea. apply HC.
+      * rewrite upd_other by assumption. apply HC.
+  - unfold after_acquire. constructor.
+    + unfold LInv. ssimpl. now apply linv_att_acquire_free.
+    + exact HP.
+    + unfold CAll. ssimpl. apply callc_upd; [exact HC|].
+      apply (k3_snap G pkts _ (s_att s c) (s_cs s c)); [now left|apply HC].
+Qed.
+
+(* fields that the consumer-side steps leave alone *)
+Definition same_ctl (s s' : state) : Prop :=
+  s_ok s' = s_ok s /\ s_lock s' = s_lock s /\ s_lockq s' = s_lockq s /\ s_sent s' = s_sent s /\
+  s_todo s' = s_todo s /\ s_pp s' = s_pp s /\ s_att s' = s_att s.
+
+Lemma inv_same_ctl s s' : Inv s -> same_ctl s s' -> CAll s' -> Inv s'.
+Proof.
+  intros [HL HP _] (E1 & E2 & E3 & E4 & E5 & E6 & E7) HC. constructor; [| |exact HC].
+  - unfold LInv in *. now rewrite E2, E3, E5, E6, E7.
+  - unfold Prefix in *. now rewrite E1, E4, E5, E6.
+Qed.
+
+Lemma step_cons_spec (s : state) c s' :
+  step_cons fixed cache_t panic_at s c = Some s' ->
+  exists k', cons_next (panic_at c) (s_cs s c) (length (s_sent s)) = Some k' /\
+             s_cs s' = upd (s_cs s) c k' /\ same_ctl s s' /\
+             s_cache s' = s_cache s /\ s_cached s' = s_cached s /\ s_kp s' = s_kp s /\
+             (forall x, s_stp s' x = s_stp s x).
+Proof.
+  unfold step_cons, cons_next, same_ctl. cbn [v_atomic fixed].
+  assert (Hstp : forall x, upd (s_stp s) c (s_stp s c) x = s_stp s x).
+  { intros x. destruct (upd_eq_cases (s_stp s) c (s_stp s c) x) as [[-> ->]|[_ ->]]; reflexivity. }
+  destruct (c_pc (s_cs s c)) as [| |[p|]| | |]; try discriminate.
+  - destruct (c_q (s_cs s c)) as [|x q']; intros E; injection E as <-;
+      (eexists; split; [reflexivity|]; ssimpl; repeat split; reflexivity).
+  - destruct (Nat.eqb (S (length (c_out (s_cs s c)))) (panic_at c)); intros E; injection E as <-;
+      (eexists; split; [reflexivity|]; ssimpl; repeat split; reflexivity).
+  - intros E; injection E as <-. eexists; split; [reflexivity|]; ssimpl; repeat split; reflexivity.
+  - intros E; injection E as <-. eexists; split; [reflexivity|]; ssimpl; repeat split; auto.
+Qed.
+
+Lemma inv_init stoppers : Inv (initF pkts stoppers).
+Proof.
+  constructor.
+  - apply linv_init.
+  - left. reflexivity.
+  - intros c. apply k3_init.
+Qed.
+
+Lemma inv_step s t s' : Inv s -> stepF s t = Some s' -> Inv s'.
+Proof.
+  intros HI Hstep. pose proof HI as [HL HP HC]. destruct t as [| |c|c|c]; simpl in Hstep.
+  - (* TPub *)
+    unfold step_pub in Hstep.
+    destruct (s_pp s) eqn:Epp; destruct (s_todo s) as [|p rest] eqn:Et; try discriminate.
+    + (* P0 *)
+      destruct (s_ok s) eqn:Eok; injection Hstep as <-.
+      * constructor.
+        -- unfold LInv in *. ssimpl. rewrite Epp, Et in HL.
+           apply (linv_pp_plain _ _ _ _ _ P1 (p :: rest) HL); discriminate.
+        -- unfold Prefix in *. ssimpl. rewrite Et in HP.
+           destruct HP as [HP|(E & _)]; [now left|congruence].
+        -- exact HC.
+      * constructor.
+        -- unfold LInv in *. ssimpl. rewrite Epp, Et in HL.
+           apply (linv_pp_plain _ _ _ _ _ P0 rest HL); discriminate.
+        -- unfold Prefix in *. ssimpl. right. split; [reflexivity|]. split; [reflexivity|].
+           rewrite Et in HP. destruct HP as [HP|(_ & _ & l & HP)]; eauto.
+        -- exact HC.
+    + (* P1 *)
+      injection Hstep as <-. eapply acquire_inv_pub; eassumption.
+    + (* P2 *)
+      injection Hstep as <-.
+      assert (Epk : pkts = (s_sent s ++ [p]) ++ rest).
+      { unfold Prefix in HP. rewrite Et in HP. destruct HP as [HP|(_ & E & _)]; [|congruence].
+        rewrite <- app_assoc. exact HP. }
+      assert (El : s_lock s = Some HPub) by (apply (l_pub _ _ _ _ _ HL); exact Epp).
+      unfold LInv in HL. rewrite El, Epp, Et in HL.
+      pose proof (linv_pub_release _ _ _ rest HL) as HR.
+      apply release_inv.
+      * unfold CAll. ssimpl. apply callc_send_all; [exact HC|apply (l_rng _ _ _ _ _ HL)|].
+        intros Hg. eapply gap_ok_prefix; eassumption.
+      * unfold RelPre. ssimpl. destruct (s_lockq s) as [|[|c] r]; [exact HR|contradiction|].
+        destruct HR as [Ea HR]. split; [now right|exact HR].
+      * left. ssimpl. exact Epk.
+  - (* TClose *)
+    unfold step_close in Hstep. destruct (s_kp s) eqn:Ek; try discriminate.
+    + injection Hstep as <-. constructor.
+      * exact HL.
+      * unfold Prefix in *. ssimpl. destruct HP as [HP|(E1 & E2 & HP)]; [now left|right; auto].
+      * exact HC.
+    + destruct (sweep fixed ncons (s_cs s) (length (s_sent s))) as [f d] eqn:Es.
+      cbn [v_atomic fixed] in Hstep. injection Hstep as <-.
+      apply (inv_same_ctl s); [exact HI|unfold same_ctl; ssimpl; repeat split; reflexivity|].
+      unfold CAll. ssimpl. replace f with (fst (sweep fixed ncons (s_cs s) (length (s_sent s)))) by now rewrite Es.
+      apply callc_sweep. exact HC.
+    + injection Hstep as <-.
+      apply (inv_same_ctl s); [exact HI|unfold same_ctl; ssimpl; repeat split; reflexivity|exact HC].
+  - (* TAtt c *)
+    destruct (Nat.ltb_spec c ncons) as [Hc|Hc]; [|discriminate].
+    unfold step_att in Hstep. destruct (s_att s c) eqn:Ea; try discriminate.
+    + (* A0 *) injection Hstep as <-. now apply acquire_inv_att.
+    + (* A1 *)
+      injection Hstep as <-.
+      assert (El : s_lock s = Some (HAtt c)) by (apply (l_att _ _ _ _ _ HL); exact Ea).
+      unfold LInv in HL. rewrite El in HL.
+      pose proof (linv_att_release _ _ _ _ _ HL) as HR.
+      apply release_inv.
+      * unfold CAll. ssimpl. apply callc_upd; [exact HC|].
+        apply k3_register. rewrite <- Ea. apply HC.
+      * unfold RelPre. ssimpl. destruct (s_lockq s) as [|[|c'] r]; [exact HR|exact HR|].
+        destruct HR as [Ea' HR]. split; [|exact HR].
+        right. rewrite upd_other; [exact Ea'|]. intros <-. congruence.
+      * exact HP.
+    + (* A2 *)
+      assert (HK : K3 G pkts (s_sent s) ADone
+                      (loop_test fixed
+                         (if negb (s_ok s) && c_reg (s_cs s c)
+                          then close_cons fixed (set_reg (s_cs s c) false (length (s_sent s)))
+                          else s_cs s c) (length (s_sent s))) (panic_at c)).
+      { apply k3_start. rewrite <- Ea. apply HC. }
+      cbn [v_recheck fixed] in Hstep.
+      destruct (s_ok s) eqn:Eok, (c_reg (s_cs s c)) eqn:Er; simpl in Hstep, HK;
+        injection Hstep as <-;
+        (constructor;
+         [ unfold LInv; ssimpl; now apply linv_att_done
+         | exact HP
+         | unfold CAll; ssimpl; apply callc_upd; [exact HC|exact HK] ]).
+  - (* TStop c *)
+    destruct (Nat.ltb_spec c ncons) as [Hc|Hc]; [|discriminate].
+    destruct (s_att s c) eqn:Ea; try discriminate.
+    unfold step_stop in Hstep. cbn [v_atomic fixed] in Hstep.
+    destruct (s_stp s c) eqn:Es; try discriminate.
+    + destruct (c_reg (s_cs s c)) eqn:Er; injection Hstep as <-.
+      * apply (inv_same_ctl s); [exact HI|unfold same_ctl; ssimpl; repeat split; reflexivity|].
+        unfold CAll. ssimpl. apply callc_upd_cs; [exact HC|]. apply k3_unreg; [exact Er|apply HC].
+      * apply (inv_same_ctl s); [exact HI|unfold same_ctl; ssimpl; repeat split; reflexivity|exact HC].
+    + injection Hstep as <-.
+      apply (inv_same_ctl s); [exact HI|unfold same_ctl; ssimpl; repeat split; reflexivity|].
+      unfold CAll. ssimpl. apply callc_upd_cs; [exact HC|]. apply k3_close. apply HC.
+  - (* TCons c *)
+    destruct (Nat.ltb_spec c ncons) as [Hc|Hc]; [|discriminate].
+    destruct (step_cons_spec _ _ _ Hstep) as (k' & En & Ecs & Hctl & _).
+    apply (inv_same_ctl s); [exact HI|exact Hctl|].
+    unfold CAll. destruct Hctl as (_ & _ & _ & E4 & _ & _ & E7). rewrite Ecs, E4, E7.
+    apply callc_upd_cs; [exact HC|]. eapply k3_cons_next; [apply HC|exact En].
+Qed.
+
+Lemma inv_run sched : forall s, Inv s -> Inv (runF sched s).
+Proof.
+  induction sched as [|t sched IH]; intros s HI; simpl; [exact HI|].
+  apply IH. destruct (stepF s t) as [s'|] eqn:E; [eapply inv_step; eassumption|exact HI].
+Qed.
+
+Lemma inv_reachable sched stoppers : Inv (runF sched (initF pkts stoppers)).
+Proof. apply inv_run, inv_init. Qed.
+
+End Global.
 End Backlog.
